@@ -110,6 +110,13 @@ def check_given(t, q0, r, n, freq, in_deg, norm_mag, cls, ref=None):
     t.calls += 1
     if not maxdiff(corrected, want_w) <= 1e-9 * max(1.0, np.max(np.abs(rate))):
         t.fail("C20|gyroscopes|bias-corrected-rate-differs|%s" % cls, dict(case, got=corrected[:3], want=want_w[:3], bias=S.biases_gyroscopes))
+    # the angular velocities the object publishes (rad/s, whatever the unit of the gyroscope output) are that same rate
+    if hasattr(S, "ang_vel"):
+        t.calls += 1
+        av = np.asarray(S.ang_vel, dtype=float)
+        want_av = want_w / unit
+        if av.shape != want_av.shape or not maxdiff(av, want_av) <= 1e-9 * max(1.0, np.max(np.abs(want_av))):
+            t.fail("C20|ang_vel|differs-from-the-generator's-rate|%s" % cls, dict(case, got=av[:3], want=want_av[:3]))
     # integrating the bias-corrected rates from the first attitude reproduces the trajectory
     w = corrected / unit
     ar = F.AngularRate(Dt=1.0 / freq)
